@@ -81,6 +81,14 @@ def check_case(case):
         if not err <= rel * scale:
             out.bad(f"{name}: S(a q1+b q2, a c1+b c2) differs from a S(q1,c1)+b S(q2,c2) by {err:.3e} (> {rel * scale:.3e}); a={a}, b={b}")
 
+    # homogeneity on its own: S(a q1, a c1) == a S(q1, c1), including amplitudes many decades away from one
+    if a != 0.0:
+        Ca, Fa = run(a * q1, a * c1)
+        for name, X1, Xa, s1 in (("conc", C1, Ca, c1s), ("flux", F1, Fa, f1s)):
+            err = tol.maxabs(Xa - a * X1)
+            if not err <= rel * abs(a) * max(tol.maxabs(X1), s1):
+                out.bad(f"{name}: S(a q, a c) differs from a S(q, c) by {err:.3e} (> {rel * abs(a) * max(tol.maxabs(X1), s1):.3e}) for a = {a!r}")
+
     # background is a uniform offset of the concentration and leaves the flux alone
     C10, F10 = run(q1, 0.0)
     d = C1 - C10
